@@ -147,6 +147,19 @@ func zzC04_group() {
 		ga, ok := a.Data.(*GroupedAVP)
 		vAssert(ok && len(ga.AVP) == k, "nested members counted by declared length")
 	}
+	// and in a message, followed by a sibling AVP: the sibling is found exactly behind the group's
+	// declared length, whatever sizes the members' data types expect
+	sib := vBytes("sibling", 8)
+	vAssume(sib[4]&0x80 == 0 && sib[5] == 0 && sib[6] == 0 && sib[7] == 8)
+	sibCode := zzBE32(sib[0:4])
+	ds, _ := d.FindAVPWithVendor(app, sibCode, 0)
+	vAssume(ds.Data.Type == datatype.UnknownType) // (an undefined code: the sibling is only a marker)
+	zzKnownCommand(d, app, 257)
+	msg, merr := ReadMessage(zzNewReader(zzMessageBytes(append(append([]byte(nil), outer...), sib...), 0x80, 257, app)), d)
+	vAssert((merr == nil) == (err == nil), "a message holding the group and a sibling decodes exactly when the group's payload walks")
+	if merr == nil {
+		vAssert(len(msg.AVP) == 2 && msg.AVP[0].Code == ocode && msg.AVP[1].Code == sibCode && msg.AVP[1].Flags == sib[4], "the AVP following a group is the one found by walking by the group's declared length")
+	}
 	vReach("C04_group")
 }
 
